@@ -227,6 +227,31 @@ static void run_write_seq(void)
     (void) stored; (void) m;
 }
 
+/* one _write on a writer in a given state (the counterexample of the _write contract, replayed) */
+static unsigned long w_used, w_len; static int w_err, w_has_buffer = 1;
+static void run_write_piece(void)
+{
+    binson_writer w;
+    uint8_t *dst = w_has_buffer ? malloc(capacity) : NULL;
+    if (dst && capacity) memset(dst, 0xEE, capacity);
+    w.buffer = dst; w.buffer_size = capacity; w.buffer_used = w_used; w.error_flags = (binson_err) w_err;
+    uint8_t *src = malloc(w_len);
+    for (unsigned long i = 0; i < w_len; i++) src[i] = (uint8_t) (0x30 + i % 10);
+    bbuf d; d.bptr = src; d.bsize = w_len;
+    bool r = _write(&w, &d);
+    int fits = (w_used + w_len >= w_used) && (w_used + w_len <= capacity);
+    printf("_write(cap=%lu used=%lu err=%d len=%lu buffer=%s) -> %d counter=%zu err=%d\n", capacity, w_used, w_err, w_len, dst ? "yes" : "NULL", r, w.buffer_used, w.error_flags);
+    if (w.buffer_used != w_used + w_len) FAIL("counter %zu, expected %lu", w.buffer_used, w_used + w_len);
+    int exp_err = !dst ? BINSON_ERROR_NULL : (fits ? w_err : BINSON_ERROR_RANGE);
+    if ((int) w.error_flags != exp_err) FAIL("error %d, expected %d", w.error_flags, exp_err);
+    if (r != (w.error_flags == BINSON_ERROR_NONE)) FAIL("returned %d with error %d", r, w.error_flags);
+    if (dst) for (unsigned long i = 0; i < capacity; i++) {
+        int in_piece = (w.error_flags == BINSON_ERROR_NONE) && i >= w_used && i - w_used < w_len;
+        if (in_piece && dst[i] != src[i - w_used]) FAIL("byte %lu is not the payload byte", i);
+        if (!in_piece && dst[i] != 0xEE) FAIL("byte %lu outside the piece (or after an error) was modified", i);
+    }
+}
+
 int main(int argc, char **argv)
 {
     if (argc < 2) { return 2; }
@@ -249,6 +274,10 @@ int main(int argc, char **argv)
         else if (!strcmp(k, "value")) ivalue = atoll(v);
         else if (!strcmp(k, "capacity")) capacity = strtoul(v, 0, 10);
         else if (!strcmp(k, "op") && nops < 64) strcpy(ops[nops++], v);
+        else if (!strcmp(k, "used")) w_used = strtoul(v, 0, 10);
+        else if (!strcmp(k, "len")) w_len = strtoul(v, 0, 10);
+        else if (!strcmp(k, "err")) w_err = atoi(v);
+        else if (!strcmp(k, "has_buffer")) w_has_buffer = atoi(v);
     }
     fclose(f);
     if (max_depth < 1) max_depth = 1;
@@ -258,6 +287,7 @@ int main(int argc, char **argv)
     else if (!strcmp(kind, "int_pack")) run_int_pack();
     else if (!strcmp(kind, "cmp_name")) run_cmp_name();
     else if (!strcmp(kind, "write_seq")) run_write_seq();
+    else if (!strcmp(kind, "write_piece")) run_write_piece();
     else { printf("unknown kind '%s'\n", kind); return 2; }
     printf(bad ? "REPLAY: VIOLATION REPRODUCED on the real code\n" : "REPLAY: real code behaves as specified on this input\n");
     return bad;
